@@ -103,18 +103,19 @@ def gallery_cases(label):
         sig, body, args, want = entry[:4]
         turbofish, trait_call = entry[4] if len(entry) > 4 else ("", None)
         prelude = (entry[5] + "\n") if len(entry) > 5 else ""
-        for form in ("fn", "async", "mod", "unsafe"):
+        # (`const fn`: the fn stays const, the trait method - which cannot be - delegates to it; only for const-evaluable bodies)
+        for form in ("fn", "async", "mod", "unsafe") + (("const", "const_mod") if body in ("{ x + 1 }", "{ ***x + 1 }", "{ N }") else ()):
             cid = "c03g%s_%02d_%s" % (label, gi, form)
             is_async = form == "async"
             if is_async and ("'a" in sig.split("(")[0] and "impl Iterator" in sig):
                 continue
             if is_async and any(x in sig for x in ("<D, F>", "<D, T>", "dyn Iterator", "*const", "impl Fn(i32) -> i32 + Send) -> i32" if False else "<D, F>")):
                 continue   # a future capturing a non-Send argument cannot be Send: rustc's rule
-            q = {"fn": "", "async": "async ", "mod": "pub ", "unsafe": "unsafe "}[form]
+            q = {"fn": "", "async": "async ", "mod": "pub ", "unsafe": "unsafe ", "const": "const ", "const_mod": "pub const "}[form]
             fn = "%sfn subj%s %s" % (q, sig, body)
             if is_async and ("dyn Iterator" in sig or "*const" in sig or "&mut Vec" in sig and False):
                 continue   # non-Send arguments in a Send future: rustc's rule
-            if form == "mod":
+            if form in ("mod", "const_mod"):
                 item = prelude + "#[::entrait::entrait(pub Subj)] /*@inv*/\npub mod m { use super::*; %s }" % fn
                 path = "m::subj"
             else:
